@@ -194,6 +194,7 @@ struct Spec
 {
     int cls, L, M, k, hk, hlen, hshape, in;
     uint64_t seed;
+    int sexp{0};    // the whole stream is scaled by 10^sexp (the chain is linear: levels hundreds of dB from unity change nothing)
     int longf{0};   // > 0: the stream holds one frame of more than 65536 input samples (16-bit offsets inside a call)
 };
 // failure-signature tag; a direct converter built on a non-reduced pair is a class of its own
@@ -226,6 +227,7 @@ bool run_stream(const Spec& sp, const arr_real* h, Mode mode, Rng& r, int units,
     const int total = units * M;
     const double band = 0.5 * std::min(1.0, double(L) / double(M));
     res.x = make_input(r, total, in_cls, band);
+    if (sp.sexp) { const double g = std::pow(10.0, double(sp.sexp)); for (auto& v : res.x) v *= g; }
     // cut the stream into 1..4 frames (cuts may coincide: empty frames are multiples of M too)
     const int nf = sp.longf ? r.range(1, 2) : r.range(1, 4);
     std::vector<int> cuts = {0, units};
@@ -285,6 +287,8 @@ VK_SUB(chain, "chain_identity");
 static void chain_check(const Json& c, Out& o) {
     Spec sp = decode(c);
     sp.longf = c.geti("long", 0);
+    sp.sexp = c.geti("sexp", 0);
+    if (sp.sexp) o.label(sp.sexp < 0 ? "stream level: 1e-20 .. 1e-45" : "stream level: 1e20 .. 1e45");
     if (sp.longf) o.label("frame > 65536 input samples");
     const int L = sp.L, M = sp.M;
     const Mode mode = mode_of(sp.cls, L, M);
@@ -454,7 +458,9 @@ static void chain_gen(Ctx& ctx) {
         const int k = cls == C_RESAMPLER ? kMult[pick(0, 6)] : 1;
         const int hk = pick(0, 3) == 0 ? 0 : 1;
         const int hlen = hk ? pick_log(2, 40 * std::max(q.L, q.M)) : 0;
-        return chain_case(cls, q.L, q.M, k, hk, hlen, pick(0, HS_NSHAPE - 1), pick(0, I_NIN - 1), seed64() << 16);
+        Json cc = chain_case(cls, q.L, q.M, k, hk, hlen, pick(0, HS_NSHAPE - 1), pick(0, I_NIN - 1), seed64() << 16);
+        if (pick(0, 5) == 0) cc.set("sexp", (flip() ? 1 : -1) * pick(20, 45));
+        return cc;
     });
 }
 
